@@ -58,6 +58,7 @@ def demanded_spreads(schema, static_t, sel_sets, frags):
                     todo.append((s.selection_set, tc))
             elif s.kind == "fragment_spread" and s.name.value in frags and frags[s.name.value].type_condition.name.value == tname and not s.directives:
                 todo.append((frags[s.name.value].selection_set, tname))
+    per_scope = []
     for ss, tname in scope:
         direct = [x for x in ss.selections if not (x.kind == "inline_fragment" and (x.type_condition is None or x.type_condition.name.value == tname))]
         pure = True
@@ -71,7 +72,12 @@ def demanded_spreads(schema, static_t, sel_sets, frags):
                     names.append(s.name.value)
                     continue
             pure = False
-        if is_object_type(static_t) or (pure and tname == static_t.name):
+        per_scope.append((tname, pure, names))
+    # an abstract position is split into per-type classes as soon as ANY selection set in its scope selects on a sub-type; the statement's
+    # demand is then void for the whole position (the fragments are unpacked into the per-type classes)
+    whole_pure = all(pure for _, pure, _ in per_scope)
+    for tname, pure, names in per_scope:
+        if is_object_type(static_t) or (whole_pure and tname == static_t.name):
             out += names
     return out
 
@@ -210,7 +216,7 @@ def build_cases(tier):
     cases = []
     graph_sets = [(2, ("User", "Node", "Named", "U")), (3, ("User", "Node"))] if tier == "quick" else [(2, ("User", "Node", "Named", "U")), (3, ("User", "Node", "Named")), (4, ("User", "Node"))]
     for nf, ts in graph_sets:
-        for g in corpus2.fragment_graphs(nf, ts):
+        for g in corpus2.fragment_graphs(nf, ts, subsets=(nf == 3)):
             try:
                 if validate(K, parse(g["doc_text"]), RULES):
                     continue
